@@ -451,9 +451,11 @@ def handle (sess : Sess) (rep : Report) (ln : Nat) (toks : List String) (obs : S
                     else (sess, rep)
         | none => (sess, rep)
       else
-      let mk (c : Nat) : Op := .done c .deClient { key := "", keys := [] }
+      -- `park=1 errb=nil`: b is a successful completion that runs while a is stopped inside the detector
+      let okB := arg a "errb" == "nil"
+      let mk (c : Nat) : Op := if okB && c == cb then .done c .nil { key := "", keys := [] } else .done c .deClient { key := "", keys := [] }
       let parts := obs.splitOn " ; "
-      let rep := rep.bump "pool.concurrent_completion_pair"
+      let rep := rep.bump (if okB then "pool.response_during_deadline_completion" else "pool.concurrent_completion_pair")
       let explain (first second : Op) : Option (St × St × List String × List String × String) :=
         match sess.model with
         | none => none
